@@ -1209,6 +1209,12 @@ class NumpyStub:
             return obj_cls(x).lookup("__iter__")[0] is not None
         return False
 
+    def f_size(self, x, axis=None):
+        a = self.as_arr(x)
+        if axis is None:
+            return a.size if not isinstance(a, TArr) else a.shape[0]
+        return a.shape[self.I.concrete_int(axis)]
+
     def f_ndim(self, x):
         return self.as_arr(x).ndim
 
